@@ -68,3 +68,33 @@ def apply_controls(run, tier):
         run.errors.append("negative control survived (engine unsound or contract too weak): %s (exit %s)" % (s["name"], s.get("exit")))
     for s in r["stale"]:
         run.errors.append("negative control no longer applies to the current source (update controls/%s.py): %s" % (run.prop, s["name"]))
+
+
+def lean_theorems(run, prop, filename, theorems):
+    """Run `lean <file>`; one obligation per theorem: accepted by the kernel, no `sorry`, no axiom beyond propext / Quot.sound / Classical.choice"""
+    import re
+    import subprocess
+    import time
+
+    from cddvc.report import PROVED, REFUTED, UNDECIDED
+
+    src = os.path.join(VERIF, "lean", filename)
+    t = time.time()
+    try:
+        r = subprocess.run(["lean", src], capture_output=True, text=True, timeout=600)
+    except Exception as ex:
+        for th in theorems:
+            run.add("%s/lean/%s" % (prop, th), UNDECIDED, "lean-4", detail="lean could not be run: %s" % ex)
+        return
+    out = r.stdout + r.stderr
+    dt = time.time() - t
+    text = open(src).read()
+    for th in theorems:
+        m = re.search(r"'%s' (does not depend on any axioms|depends on axioms: \[([^\]]*)\])" % th, out)
+        ok = r.returncode == 0 and "error" not in out and "sorry" not in out and m is not None and ("theorem %s" % th) in text
+        axioms = (m.group(2) or "none") if m else "?"
+        if ok and any(a.strip() not in ("propext", "Quot.sound", "Classical.choice", "") for a in axioms.replace("none", "").split(",")):
+            ok = False
+        run.add("%s/lean/%s" % (prop, th), PROVED if ok else (UNDECIDED if r.returncode == 0 else REFUTED), "lean-4.33", dt / max(1, len(theorems)),
+                detail="accepted by the Lean kernel; axioms: %s" % axioms if ok else "lean output: %s" % out[-300:])
+        run.assumptions.add("Lean theorem %s uses axioms: %s" % (th, axioms))
